@@ -100,7 +100,7 @@ def run_shard(spec, shard):
             base = [s for s in ast[2] if "filter" not in Q.features(["q", "$", [s]])][:2]
             seg = diff.guided_filter_segment(r, g, base, doc)
             ast = ["q", "$", base + [seg] + ([g.segment(0)] if r.random() < 0.3 else [])]
-            if diff.arg_starts_with_not_or_paren(ast):
+            if diff.EXCLUDE_R and diff.arg_starts_with_not_or_paren(ast):
                 shard.excluded["R:function-argument-starting-with-!-or-("] += 1
                 return
             rd = Q.Renderer(r, 0.15)
